@@ -27,10 +27,36 @@ PROPS = {
                         "machine 64-bit multiply/divide/remainder are uninterpreted in the complete proofs (rule E10) and cross-checked only at context width <= 8 (bounded stand-ins)"],
     },
     "C18": {
-        "units": ["opeval"],
+        "units": ["wide", "opeval"],
         "level": "proof",
-        "clause": "Interpreter engine, widths <= 64: Expression::eval (crates/simulator/src/ir/expression.rs) evaluates Unary/Binary nodes by calling exactly Op::eval_value_unary / "
+        "clause": "Multi-word run-time helpers (crates/simulator/src/wide_ops.rs, used by the JIT and C engines above 128 bits): all 24 wide_* helpers plus nw, sext_word, "
+                  "pack/unpack_nb_width compute the mathematically correct multi-word result (add/sub/negate/mul modulo 2^(64n), signed/unsigned compare, shifts by any amount, "
+                  "sign/zero extension, masks, reductions) for every word count and every value, with every memory access in bounds (Verus, unbounded). "
+                  "Interpreter engine, widths <= 64: Expression::eval (crates/simulator/src/ir/expression.rs) evaluates Unary/Binary nodes by calling exactly Op::eval_value_unary / "
                   "Op::eval_value_binary, which are proved equal to the IEEE 1800 reference for all values and widths <= 64 (same contract as C17), so run-time == compile-time there.",
-        "assumptions": ["not covered: Cranelift and AOT-C lowering, widths above 64 bits (unit wide pending), that Expression::eval passes the same (width, signed) as the analyzer"],
+        "assumptions": ["not covered: the Cranelift and AOT-C code that calls the helpers and all <=128-bit machine-code lowering, the interpreter's BigUint arms (65+ bits), "
+                        "that Expression::eval passes the same (width, signed) as the analyzer",
+                        "wide_ops: raw pointers re-typed to Vec<u64> (rule E5): pointer validity, alignment and aliasing of dst with an operand are not modelled"],
+    },
+    "C28": {
+        "units": ["pretty"],
+        "level": "proof",
+        "clause": "crates/pretty/src/render.rs, every function that touches the render state: the position invariant (current_line == 1 + #newlines written, col == chars "
+                  "after the last newline) and the anchor invariant (every recorded anchor's (dst_line, dst_column) is the 1-based line/character column of the output "
+                  "offset at which its text was written, its text is there, offsets non-decreasing) hold after every operation, for all Doc trees and RenderOpts; break-only "
+                  "text (IfBreak / IfBreakPad) is written iff the frame's mode is Break, IfFlatPad iff Flat (Verus, unbounded).",
+        "assumptions": ["not covered: the clause 'rendered text contains every fragment in document order' (no ghost content log built), termination of render_inner / fits_flat loops",
+                        "input conditions (wf_doc/wf_opts): newline is \\n or \\r\\n, Line separators and IfBreak texts contain no newline, anchored texts are non-empty and do not end in a space, "
+                        "document cost <= 2^31 (sizes stay inside the machine integers)"],
+    },
+    "C13": {
+        "units": ["pretty"],
+        "level": "proof",
+        "clause": "Output side of the source map: every entry handed to SourceMap::add comes from a render anchor whose (dst_line, dst_column) is where its name text starts in the "
+                  "emitted text; entries are ordered by output position; all four coordinates are >= 1 so the 1-based -> 0-based conversion in SourceMap::add cannot underflow and "
+                  "passes exactly x-1 (Verus; lemma_rendered_sorted, lemma_line_col_monotone, SourceMap::add contract).",
+        "assumptions": ["not covered: the source side (token positions of ordinary tokens come from parol; comments: see C12), Emitter::push_token / Emitter::emit glue "
+                        "(a hand-written mirror of the emit loop, labelled as such, shows render's postcondition discharges SourceMap::add's precondition), the external sourcemap crate",
+                        "not covered: 'every output line containing a mapped identifier has at least one entry' beyond 'every anchored text yields an entry on its line'"],
     },
 }
